@@ -61,6 +61,22 @@ Definition differ_only_at (j : nat) (P P' : list backend) : Prop :=
 Definition acceptable (c : cls) (asked : list uri) (r : resp) : bool :=
   match r with RMap items => forallb (item_ok c asked) items | _ => false end.
 
+(* requests that are not restricted by a URI: the method they invoke and the provider asked *)
+Definition unrestricted_op (o : op) : option (meth * (backend -> bool)) :=
+  match o with
+  | OSearch q None _ | OSearch q (Some []) _ =>
+      match sq_normalize q with
+      | SQGood | SQGood2 => Some (MSearch, b_lib)
+      | _ => None
+      end
+  | ODistinct f q => if field_valid f && dq_valid q then Some (MDistinct, b_lib) else None
+  | ORefresh None => Some (MRefresh, b_lib)
+  | OBrowse BNone => Some (MRoot, b_browse)
+  | OAsList => Some (PAsList, b_playlists)
+  | OPlRefresh None => Some (PRefresh, b_playlists)
+  | _ => None
+  end.
+
 (* ------------------------------------------------------------------ whose answer a call got *)
 
 Definition answer_of (P : list backend) (mx : option mixer) (w : who) (m : meth) (a : arg) : resp :=
